@@ -344,6 +344,68 @@ def rw_iflet_map(text, nth, fired, fname):
     raise Undecided('lost-anchor', 'iflet_map %d: no such statement in %s' % (nth, fname))
 
 
+def rw_entry_chain(text, nth, fired, fname):
+    """R26 (added for unit `reader_update`, directive `@@entry_chain k`): the nth statement of the form
+        MAP.entry(KEY).and_modify(|P| A).or_insert_with(|| B);          (value discarded)
+    becomes the definition of that entry-API chain:
+        if MAP.contains_key(&(KEY)) { let P = MAP.get_mut(&(KEY)).unwrap(); A; }
+        else { let vx_new = B; MAP.insert(KEY, vx_new); }
+    A and B are copied verbatim (closure bodies become plain blocks, so their captures are ordinary
+    uses).  Guards (else UNDECIDED): MAP is a field path (`a.b.c`), KEY is a field path (evaluated
+    up to three times: no side effects), the chain is a whole expression statement."""
+    src = Src(text)
+    cnt = 0
+    for i in range(src.n()):
+        if not (src.s(i) == '.' and src.s(i + 1) == 'entry' and src.s(i + 2) == '('):
+            continue
+        kc = src.match[i + 2]
+        if not (src.s(kc + 1) == '.' and src.s(kc + 2) == 'and_modify' and src.s(kc + 3) == '(' and src.s(kc + 4) == '|'):
+            continue
+        ac = src.match[kc + 3]
+        if not (src.s(ac + 1) == '.' and src.s(ac + 2) == 'or_insert_with' and src.s(ac + 3) == '(' and src.s(ac + 4) == '||'):
+            continue
+        bc = src.match[ac + 3]
+        if src.s(bc + 1) != ';':
+            continue
+        j = i - 1
+        while j >= 0:
+            sj = src.s(j)
+            if sj in rscan.CLOSE:
+                j = src.match[j] - 1
+                continue
+            if sj in (';', '{', '}'):
+                break
+            j -= 1
+        start = j + 1
+        if src.s(start) in ('let', 'return'):
+            continue
+        cnt += 1
+        if cnt != nth:
+            continue
+
+        def is_path(a, b):
+            return all((src.t(k).kind == 'ident' and (k - a) % 2 == 0) or (src.s(k) == '.' and (k - a) % 2 == 1) for k in range(a, b + 1)) and (b - a) % 2 == 0
+        if not is_path(start, i - 1) or not is_path(i + 3, kc - 1):
+            raise Undecided('unsupported-construct', 'entry_chain %d of %s: MAP / KEY is not a plain field path' % (nth, fname))
+        mp = ''.join(src.s(k) for k in range(start, i))
+        key = ''.join(src.s(k) for k in range(i + 3, kc))
+        pe = kc + 5
+        while src.s(pe) != '|':
+            if src.s(pe) in rscan.OPEN: pe = src.match[pe]
+            pe += 1
+        pat = text[src.t(kc + 5).pos:src.t(pe - 1).end].replace('\n', ' ')
+        a_a, a_b = src.t(pe + 1).pos, src.t(ac - 1).end
+        b_a, b_b = src.t(ac + 5).pos, src.t(bc - 1).end
+        whole_a, whole_b = src.t(start).pos, src.t(bc + 1).end
+        new = ('if %s.contains_key(&(%s)) { let %s = %s.get_mut(&(%s)).unwrap(); ' % (mp, key, pat, mp, key)
+               + '\n' * text[whole_a:a_a].count('\n') + text[a_a:a_b] + '; } else { let vx_new = '
+               + '\n' * text[a_b:b_a].count('\n') + text[b_a:b_b] + '; %s.insert(%s, vx_new); }' % (mp, key)
+               + '\n' * text[b_b:whole_b].count('\n'))
+        fired.append(('R26', src.line_of(whole_a), 'entry().and_modify().or_insert_with() -> contains_key / get_mut / insert'))
+        return text[:whole_a] + new + text[whole_b:]
+    raise Undecided('lost-anchor', 'entry_chain %d: no such statement in %s' % (nth, fname))
+
+
 def rw_for_each(text, nth, fired, fname):
     """R17 (second half, added for unit `repair_decision`, directive `@@for_each k`): the nth statement
     of the form `ITER.for_each(|PAT| BODY);` (value discarded, closure used only for its effect)
@@ -1052,6 +1114,9 @@ def splice_function(ft, directives, security=False):
     for d in directives:
         if d.kind == 'iflet_map':
             text = rw_iflet_map(text, int(d.arg.split()[0]) if d.arg.strip() else 1, fired, ft.name)
+    for d in directives:
+        if d.kind == 'entry_chain':
+            text = rw_entry_chain(text, int(d.arg.split()[0]) if d.arg.strip() else 1, fired, ft.name)
     for d in directives:
         if d.kind == 'for_each':
             text = rw_for_each(text, int(d.arg.split()[0]) if d.arg.strip() else 1, fired, ft.name)
